@@ -68,6 +68,7 @@ VERIF_ERRS = (
     "recommendation not met", "index out of bounds", "possible bit shift", "cannot show invariant",
     "failed precondition", "constructed value may fail", "unwrap", "split", "Resource limit",
     "possible overflow", "might not be allowed",
+    "unable to prove post-condition of closure", "unable to prove pre-condition of closure",
 )
 
 
